@@ -2028,7 +2028,8 @@ def msvcrt_strrchr(jitter):
     ret_ad, args = jitter.func_args_cdecl(['pstr','c'])
     s = get_win_str_a(jitter, args.pstr)
     c = int_to_byte(args.c).decode()
-    ret = args.pstr + s.rfind(c)
+    idx = s.rfind(c)
+    ret = 0 if idx == -1 else args.pstr + idx
     log.info("strrchr(%x '%s','%s') = %x" % (args.pstr,s,c,ret))
     jitter.func_ret_cdecl(ret_ad, ret)
 
